@@ -2,3 +2,7 @@
 import Tcell.Model.Cell
 import Tcell.Model.CellOps
 import Tcell.Props.C08
+import Tcell.Model.Encode
+import Tcell.Model.Sim
+import Tcell.Props.C17
+import Tcell.Props.C18
